@@ -129,6 +129,10 @@ RunLoop:
 		}
 		opcode := opcodes[pc]
 		if opcode.HasType1() {
+			// Operators may call metamethods: record the current pc so that an
+			// error raised in a Go metamethod (e.g. string arithmetic) is
+			// attributed to this line.
+			c.pc = pc
 			dst := opcode.GetA()
 			x := getReg(regs, cells, opcode.GetB())
 			y := getReg(regs, cells, opcode.GetC())
@@ -280,6 +284,7 @@ RunLoop:
 			var ok bool
 			var err error
 			if opcode.HasType4a() {
+				c.pc = pc // see binary operators
 				val := getReg(regs, cells, opcode.GetB())
 				switch opcode.GetUnOp() {
 				case code.OpNeg:
